@@ -91,6 +91,9 @@ def chk_matrix(c):
     y = A.dot(x)
     assert y.shape == (S.shape[0],), 'matvec result has shape %r, expected (%d,)' % (y.shape, S.shape[0])
     assert np.allclose(y, D.dot(x)), 'matvec differs from dense product'
+    # (only contiguous float64 vectors are checked: strided views, integer vectors and -- through scipy's column-wise matmat -- multi-column
+    #  arguments are rejected loudly by the typed 2-/3-level kernels ("ndarray is not C-contiguous", "Buffer dtype mismatch"); the property
+    #  speaks of the matrix-vector product and does not forbid that)
     # the object denotes its CURRENT data: replace the coefficients after a product has been computed, multiply again
     data2 = rng.randint(1, 9, size=shape).astype(float) + 10.0
     D2 = np.zeros(S.shape)
